@@ -795,9 +795,9 @@ def mutate_header(h, m):
     elif m == "cd:zero-col":
         h.update(cd1_2=0.0, cd2_2=0.0)
     elif m == "znaxis1-only":
-        h["znaxis1"] = h["naxis1"]
+        h["znaxis1"] = h.get("naxis1", 1024)
     elif m == "znaxis-both-no-naxis":
-        h["znaxis1"], h["znaxis2"] = h.pop("naxis1"), h.pop("naxis2")
+        h["znaxis1"], h["znaxis2"] = h.pop("naxis1", 1024), h.pop("naxis2", 1024)
     return h
 
 
